@@ -209,7 +209,7 @@ class SimFS:
     # -- data operations ----------------------------------------------------------------
     def alloc_fd(self):
         """POSIX: the lowest-numbered descriptor that is not open (so a closed number is handed out again at once)."""
-        fd = 10
+        fd = getattr(self, 'first_fd', 10)
         while fd in self.fds:
             fd += 1
         return fd
@@ -506,6 +506,18 @@ class Sim:
 
     def dispose(self):
         """Make every handed-out file object inert and close it (no finaliser noise)."""
+        # file objects the code under test left open although their descriptor number was closed behind their back
+        # (os.close(f.fileno()) with f alive): in a real process their finaliser closes that *number* again, whenever
+        # it runs -- by then it may belong to another file
+        self.orphans = []
+        for fo in self.files:
+            try:
+                if not fo.closed:
+                    n = fo.fileno()
+                    if isinstance(n, int) and n not in self.fs.fds and n not in self.orphans:
+                        self.orphans.append(n)
+            except BaseException:
+                pass
         self.dead = True
         for fo in self.files:
             try:
@@ -1066,7 +1078,13 @@ class SimShutil:
     copy2 = copy
 
     def move(self, src, dst, *a, **k):
-        self._os.rename(src, dst)
+        try:
+            self._os.rename(src, dst)
+        except OSError:
+            # shutil.move: across file systems the file is copied (the destination is opened for writing,
+            # truncated and filled) and the source removed -- nothing atomic about it
+            self.copy2(src, dst)
+            self._os.unlink(src)
         return dst
 
     def __getattr__(self, name):
